@@ -70,8 +70,10 @@ def build(repo):
     CONS_NOTE = ('ghost-defining contract: these Model methods are the consumers of an evaluated point; what they do with the data '
                  '(record integrity, best-so-far) is proved on their real bodies in domain M; here the *call sites* must hand over one whole ledger entry')
     T3 = ('C03', 'C11', 'C17')
-    D.contract('Model.change_point', tags=['C04', 'C03'], params={'k': 'int', 'x': 'val', 'rvec': 'val', 'eval_num': 'int'},
+    D.contract('Model.change_point', tags=['C04', 'C03'], params={'k': 'int', 'x': 'val', 'rvec': 'val', 'eval_num': 'int', 'allow_kopt_update': 'bool'},
                requires=[('an evaluated point is pending:: G.pending', 'C03'),
+                         ('(C04) every stored point may become the incumbent: no caller switches the incumbent update off (the class invariant "kopt designates the smallest stored '
+                          'objective" of bundle model is kept only with allow_kopt_update):: allow_kopt_update', 'C04'),
                          ('point is the one just evaluated (step + base == evaluated x):: ABS(G.gen, x) == G.lastx',) + T3,
                          ('residual is its first sample:: rvec == ROW(G.lastvals, 0)',) + T3,
                          ('evaluation number is its point number:: eval_num == G.pts',) + T3,
